@@ -20,15 +20,15 @@ open Icinga.Gen
 /-! ## The interpreter, for every guard table and every table of natives -/
 
 /-- **sandbox_noninterference.**  For every guard table in which each mutating node kind is guarded,
-    with the call check in place and every native that is flagged side-effect free actually leaving the
-    protected state alone: for every program, every environment and every amount of fuel, evaluating
+    with the call check in place, every native that is flagged side-effect free actually leaving the
+    protected state alone and `Reference#set` (which writes through a reference) not flagged so: for every program, every environment and every amount of fuel, evaluating
     the program sandboxed ends — with a value or with an error — in an environment whose globals,
     constants, config objects, files and registries are exactly the initial ones. -/
 theorem sandbox_noninterference (cfg : Cfg)
     (hg : ∀ k, mutating k = true → cfg.guard k = true) (hcc : cfg.callCheck = true)
-    (hp : SafeNativesPure cfg) (fuel : Nat) (e : Expr) (env : Env) :
+    (hp : SafeNativesPure cfg) (hset : RefSetUnsafe cfg) (fuel : Nat) (e : Expr) (env : Env) :
     (eval cfg true fuel e env).2.prot = env.prot :=
-  (eval_pres (R := protEq) cfg hcc frameOk_protEq (invokeOk_protEq cfg hp) (Or.inl hg) fuel e).h env
+  (eval_pres (R := protEq) cfg hcc frameOk_protEq (invokeOk_protEq cfg hp hset) (Or.inl hg) fuel e).h env
 
 /-- **sandbox_only_safe_calls.**  With the call check in place, whatever the guard table says: every
     function that a sandboxed evaluation actually invokes (ghost call log) is a native flagged
@@ -75,14 +75,39 @@ theorem sandbox_hidden_fields_indexer (cfg : Cfg) (hf : cfg.fieldCheck = true) (
     have hgf := sandbox_hidden_fields cfg hf name field o v env2 ho hv hh
     simp [eval, guardCheck, Expr.kind, hg, bind, M.bind, evalNode, chk, pure, M.pure, h1, h2, Value.toStr, hgf]
 
+/-- **sandbox_hidden_fields_reference** (reference.cpp:20-23).  A read THROUGH a reference — `*(&o.f)`
+    (DerefExpression) and `(&o.f).get()` (Reference#get) both end in `refRead` — obeys the same
+    no_user_view rule as the direct read, provided `Reference::Get` passes `sandboxed = true`. -/
+theorem sandbox_hidden_fields_reference (cfg : Cfg) (hf : cfg.fieldCheck = true) (hr : cfg.refGetSandboxed = true)
+    (name field : String) (o : Obj) (v : Value) (env : Env)
+    (ho : lookup name env.prot.objects = some o) (hv : lookup field o.attrs = some v)
+    (hh : cfg.hidden o.type field = true) :
+    refRead cfg (.refr (.obj name) field) env = (.error (.hidden o.type field), env) := by
+  simp only [refRead, RefParent.toValue, hr]
+  exact sandbox_hidden_fields cfg hf name field o v env ho hv hh
+
+/-- … at the level of whole programs: `*(&o.f)` on a hidden field of a live object is an error. -/
+theorem sandbox_hidden_fields_deref (cfg : Cfg) (hf : cfg.fieldCheck = true) (hr : cfg.refGetSandboxed = true)
+    (hng : ∀ k, k ∈ ["DerefExpression", "RefExpression", "LiteralExpression"] → cfg.guard k = false)
+    (name field : String) (o : Obj) (v : Value) (env : Env) (n : Nat)
+    (ho : lookup name env.prot.objects = some o) (hv : lookup field o.attrs = some v)
+    (hh : cfg.hidden o.type field = true) :
+    (eval cfg true (n + 3) (.deref (.ref (.index (.lit (.obj name)) (.lit (.str field))))) env).1
+      = .error (.hidden o.type field) := by
+  have h1 := hng "DerefExpression" (by simp)
+  have h2 := hng "RefExpression" (by simp)
+  have h3 := hng "LiteralExpression" (by simp)
+  have hgf := sandbox_hidden_fields_reference cfg hf hr name field o v env ho hv hh
+  simp [eval, guardCheck, Expr.kind, h1, h2, h3, bind, M.bind, evalNode, chk, pure, M.pure, Value.toStr, hgf]
+
 /-- **model_obs_meets_spec.**  Under the hypotheses of the noninterference theorem every observation the
     model can produce for a sandboxed program satisfies the specification predicate that the driver
     evaluates on the implementation's observations. -/
 theorem model_obs_meets_spec (cfg : Cfg)
     (hg : ∀ k, mutating k = true → cfg.guard k = true) (hcc : cfg.callCheck = true)
-    (hp : SafeNativesPure cfg) (fuel : Nat) (e : Expr) (env : Env) :
+    (hp : SafeNativesPure cfg) (hset : RefSetUnsafe cfg) (fuel : Nat) (e : Expr) (env : Env) :
     specStep (modelObs cfg .program false fuel e env) = none := by
-  have h := sandbox_noninterference cfg hg hcc hp fuel e env
+  have h := sandbox_noninterference cfg hg hcc hp hset fuel e env
   simp [specStep, modelObs, observe, h]
 
 /-- … and for the call of a native that is not flagged safe (the `N` lines of the harness). -/
@@ -106,6 +131,13 @@ theorem translator_covers_model_kinds :
 theorem call_and_field_checks_present :
     SandboxGuards.callCheck = true ∧ SandboxGuards.fieldCheck = true ∧
     SandboxGuards.frameInherits = true ∧ SandboxGuards.scriptFunctionsUnsafe = true := by decide
+
+/-- References: `Reference::Get` reads with the literal `sandboxed = true` (reference.cpp:22), the built-in
+    writer `Reference#set` is registered NOT side-effect free (reference-script.cpp), and
+    `IndexerExpression::GetReference` switches `init_dict` off in a sandboxed frame (expression.cpp:758-759). -/
+theorem reference_checks_present :
+    SandboxGuards.refGetSandboxed = true ∧ SandboxGuards.initDictOff = true ∧
+    genSafe "Reference#set" = some false ∧ genSafe "Reference#get" = some true := by decide
 
 /-- Every native that invokes a script-supplied function AND is flagged side-effect free tests the
     callback's own flag under `Sandboxed` first (array-script.cpp:83-212). -/
@@ -170,12 +202,19 @@ theorem all_mutating_nodes_guarded : ∀ k, mutating k = true → genGuard k = t
   exact h k (by simpa [mutating] using hk)
 
 /-- **sandbox_noninterference_pinned.**  Noninterference for the model configured by the generated
-    tables as they are: every program, environment, fuel, and every table of natives whose safe-flagged
-    entries are pure. -/
+    tables as they are: every program, environment, fuel, and every table of natives whose flags are the
+    registered ones and whose safe-flagged entries are pure. -/
 theorem sandbox_noninterference_pinned (native : String → Option Native) (hidden : String → String → Bool)
+    (hfl : NativeFlagsFromTable native)
     (hp : SafeNativesPure (genCfg native hidden)) (fuel : Nat) (e : Expr) (env : Env) :
-    (eval (genCfg native hidden) true fuel e env).2.prot = env.prot :=
-  sandbox_noninterference _ all_mutating_nodes_guarded call_and_field_checks_present.1 hp fuel e env
+    (eval (genCfg native hidden) true fuel e env).2.prot = env.prot := by
+  refine sandbox_noninterference _ all_mutating_nodes_guarded call_and_field_checks_present.1 hp ?_ fuel e env
+  intro f hf
+  have h := hfl "Reference#set" f hf
+  rw [reference_checks_present.2.2.1] at h
+  cases hs : f.safe with
+  | false => rfl
+  | true => rw [hs] at h; cases h
 
 /-- **setconst_guard_is_necessary** (what F-C19a was, kept as a statement about the UNREPAIRED table).
     Take the one guard of `SetConstExpression` out of the generated table again and noninterference is
@@ -219,6 +258,8 @@ example : SafeNativesPure exCfg := by
   · split at hn
     · cases hn; simp at hs
     · cases hn
+example : RefSetUnsafe exCfg := by
+  intro f hf; simp [exCfg] at hf
 -- the hypotheses do not make evaluation trivial: a sandboxed program computes a value through a safe native …
 example : (eval exCfg true 9 (.binop .add (.var "g") (.call (.lit (.fn "System#len")) [.lit (.str "abc")])) exEnv).1
     = .ok (.num 8, .ok) := by decide
@@ -231,6 +272,20 @@ example : (eval exCfg false 9 (.tryExcept (.dict true [.setConst "X" (.lit (.num
 -- … and the hidden-field hypotheses are satisfiable: the read is refused sandboxed, allowed otherwise.
 example : (eval exCfg true 9 (.index (.lit (.obj "u")) (.lit (.str "password"))) exEnv).1 = .error (.hidden "ApiUser" "password") := by decide
 example : (eval exCfg false 9 (.index (.lit (.obj "u")) (.lit (.str "password"))) exEnv).1 = .ok (.str "secret", .ok) := by decide
+-- references: the read through a reference is refused exactly like the direct one (also in an unsandboxed
+-- frame: the flag is the literal in Reference::Get), a visible field comes through, a write through a
+-- reference happens unsandboxed and is refused sandboxed (exCfg2 = exCfg + the two Reference natives)
+example : (eval exCfg true 9 (.deref (.ref (.index (.lit (.obj "u")) (.lit (.str "password"))))) exEnv).1
+    = .error (.hidden "ApiUser" "password") := by decide
+example : (eval exCfg false 9 (.deref (.ref (.index (.lit (.obj "u")) (.lit (.str "password"))))) exEnv).1
+    = .error (.hidden "ApiUser" "password") := by decide
+example : (eval { exCfg with refGetSandboxed := false } true 9
+            (.deref (.ref (.index (.lit (.obj "u")) (.lit (.str "password"))))) exEnv).1 = .ok (.str "secret", .ok) := by decide
+example : (eval exCfg true 9 (.deref (.ref (.var "g"))) exEnv).1 = .ok (.num 5, .ok) := by decide
+example : (eval exCfg false 9 (.setDeref (.ref (.var "g")) .add (.lit (.num 1))) exEnv).2.prot.globals = [("g", .num 6)] := by decide
+-- init_dict: unsandboxed, `globals.d.x = 1` first creates the missing `d`
+example : (eval exCfg false 9 (.setField (.index (.getScope .globals) (.lit (.str "d"))) "x" .literal (.lit (.num 1))) exEnv).2.prot.globals
+    = [("g", .num 5), ("d", .dict [])] := by decide
 -- the call log is not vacuous: the safe native is logged, the non-safe one never appears
 example : (eval exCfg true 9 (.call (.lit (.fn "System#len")) []) exEnv).2.calls = [.native "System#len"] := by decide
 example : (eval exCfg true 9 (.call (.lit (.fn "System#log")) []) exEnv).1 = .error (.notSafe (.native "System#log")) := by decide
